@@ -75,3 +75,25 @@ Theorem C10_old_edge_pad_refuted :
     = Some [Some 7; Some 7; Some 7; None; None; None]%Z.
 Proof. exact old_edge_pad_refuted. Qed.
 Print Assumptions C10_old_edge_pad_refuted.
+
+(* ---- bridge: the boolean spec evaluated by the correspondence check is satisfied by the model on every input ---- *)
+From Signalo Require Spec.C03 Spec.C04 Spec.C10 Check.Common Check.C15 Proofs.Bridge.
+(* C10: capping the counts of take / repeat / pads at K does not change the first n <= K items of the
+   iterator analogue (skip counts are NOT capped: the harness only uses huge skips over short lists) *)
+Theorem C10_count_capping_sound : forall e n K, Signalo.Proofs.Bridge.skip_free e = true -> (n <= K)%nat -> Signalo.Spec.C10.sem (Signalo.Proofs.Bridge.capc K e) n = Signalo.Spec.C10.sem e n.
+Proof. exact Signalo.Proofs.Bridge.bridge_c10_cap. Qed.
+Print Assumptions C10_count_capping_sound.
+(* C10: a skip count at least as long as the list it skips over yields nothing, whatever its size
+   (the only use the harness makes of huge skip counts) *)
+Theorem C10_huge_skip_over_short_list : forall l c, (length l <= c)%nat -> forall n, Signalo.Spec.C10.sem (Sources.ESkip (Sources.EList l) c) n = [].
+Proof. exact Signalo.Proofs.Bridge.bridge_c10_skip_short. Qed.
+Print Assumptions C10_huge_skip_over_short_list.
+(* C10: the general form: the cap is sound whenever the items requested plus all skip counts fit under it *)
+Theorem C10_count_capping_sound_with_skips : forall e n K, (n + Signalo.Proofs.Bridge.skips e <= K)%nat -> Signalo.Spec.C10.sem (Signalo.Proofs.Bridge.capc K e) n = Signalo.Spec.C10.sem e n.
+Proof. exact Signalo.Proofs.Bridge.bridge_c10_cap_skips. Qed.
+Print Assumptions C10_count_capping_sound_with_skips.
+(* C10: the one nested huge-skip shape of the harness: the skip count may be replaced by any other count past the list's end *)
+Theorem C10_pad_over_huge_skip : forall l c c' k, (length l <= c)%nat -> (length l <= c')%nat ->
+  forall n, Signalo.Spec.C10.sem (Sources.EPadEdge (Sources.ESkip (Sources.EList l) c) k) n = Signalo.Spec.C10.sem (Sources.EPadEdge (Sources.ESkip (Sources.EList l) c') k) n.
+Proof. exact Signalo.Proofs.Bridge.bridge_c10_pad_over_skip_short. Qed.
+Print Assumptions C10_pad_over_huge_skip.
